@@ -27,7 +27,7 @@ FUNCTIONS = [
 MUST_REACH = ["utils.sequence_set_to_list", "mbox.Mailbox.msg_set_to_msg_seq_set", "search.IMAPSearch._match_message_set", "search.IMAPSearch._match_uid", "mbox.Mailbox.copy"]
 BOUNDS = {
     "quick": {"set": "7 shapes of up to 2 elements (a, a:b, *, a:*, *:b, 'a,b', 'a:b,c')", "endpoints": "symbolic 0..N+1 (sequence numbers) / 0..max+2 (UIDs)", "N": "0 and 3", "probe": "symbolic position 1..N"},
-    "thorough": {"set": "same shapes", "N": "0..5, two UID layouts"},
+    "thorough": {"set": "same shapes", "N": "0..4 (UIDs 2, 3, 7, 8; operands up to the last UID + 2)"},
 }
 SYMBOLIC = ["range endpoints and single numbers", "probed message position"]
 REALISED = ["endpoints and probe are concretised by binary search on comparisons (they reach range() and error-message f-strings, where CrossHair would realise them anyway): one decision-tree leaf per value"]
@@ -131,7 +131,7 @@ def jobs(tier):
     q = tier == "quick"
     T = 600 if q else 1200
     js = []
-    for n in ([0, 3] if q else [0, 1, 2, 3, 4, 5]):
+    for n in ([0, 3] if q else [0, 1, 2, 3, 4]):
         for uid in (False, True):
             hi = (UIDS[n - 1] + 2 if n else 3) if uid else n + 1
             if q and uid:
